@@ -16,6 +16,7 @@ import (
 	"os/exec"
 	"path/filepath"
 	"sort"
+	"strconv"
 	"strings"
 	"unsafe"
 
@@ -406,12 +407,17 @@ func runHistory(seq []op, prefix []int, alts int, sweepCtxs int) execResult {
 	if x.Diverged != "" {
 		return execResult{viol: "", choices: x.Choices, ops: nops}
 	}
-	// sweep: every template of both engines, twice, default pool answers
+	// sweep: every template of both engines, twice (once in executions that deviate from the default
+	// pool answers: what a deviation hands over shows in the first use), default pool answers
+	reps := 2
+	if len(prefix) > 0 {
+		reps = 1
+	}
 	for ei := 0; ei < 2 && viol == ""; ei++ {
 		all := append(append([]string{}, names...), loadedNames...)
 		for _, n := range all {
 			for c := 0; c < sweepCtxs && viol == ""; c++ {
-				for rep := 0; rep < 2; rep++ {
+				for rep := 0; rep < reps; rep++ {
 					got := render(engs[ei], n, c, false)
 					nops++
 					if want := expect(st[ei], n, c); got != want {
@@ -495,7 +501,12 @@ func bounds(tier string) []bound {
 	if tier == "thorough" {
 		return []bound{{1, 2, 0}, {2, 2, 0}, {3, 1, 2}, {3, 1, 3}, {4, 0, 3}, {3, 2, 2}}
 	}
-	return []bound{{1, 2, 0}, {2, 1, 3}, {2, 2, 2}, {3, 0, 3}}
+	bs := []bound{{1, 2, 0}, {2, 1, 3}, {3, 0, 3}} // two deviations at depth 2: thorough ({2,2,0})
+	if v := os.Getenv("C01_ONLY_BOUND"); v != "" { // development aid: time one bound
+		i, _ := strconv.Atoi(v)
+		return bs[i : i+1]
+	}
+	return bs
 }
 
 func run(t *vlib.T) {
